@@ -38,9 +38,10 @@ TRUSTED = [
     "elapsed real time is outside the model: 'non-zero only after the full timeout' is judged on the real library with its "
     "own clock (dispatch_time(NOW,0) >= deadline at return)",
     "a DISPATCH_CLIENT_CRASH is modelled as the thread stopping (a superset of the behaviours of a process that dies)",
-    "of the obligations, 8 are single-step unfoldings of tstep / gstep without a reachability hypothesis (C19_leave_iff_increment_"
+    "of the obligations, 9 are single-step unfoldings of tstep / gstep without a reachability hypothesis (C19_leave_iff_increment_"
     "returns_1, _wait_nonzero_only_by_timeout, _wait_returns_group_result, _wait_way_out_keeps_other_bits, _cancel_while_running_"
-    "not_interrupted, _no_thread_moves_another, _cancel_sets_bit, _testcancel_monotone): readings of the model, true by "
+    "not_interrupted, _no_thread_moves_another, _cancel_sets_bit, _testcancel_monotone, _no_use_after_last_release): readings "
+    "of the model, true by "
     "construction; they carry weight only through the ties (site lists, per-thread conformance, whole-round replay).  The "
     "group's wait / notify semantics (answer 0 only at count zero, non-zero only for a finite timeout, each notification "
     "submitted exactly once, at registration if the count is zero else by the leave that reaches zero) are imported from C07 "
@@ -50,7 +51,12 @@ TRUSTED = [
     "the release step assumes the client contract (it IS the last reference: nobody inside a call, nothing queued), enforced "
     "in the model by `active s = []` and `pendsub s = 0`; an object destroyed without ever having been performed leaves its "
     "group and its notifications are submitted with no completion (library behaviour, outside block.h's documented contract "
-    "'observed ... and executed once'; exercised by the harness's dispose rounds)",
+    "'observed ... and executed once'; exercised by the harness's dispose rounds).  So the private group is left in ONE of two "
+    "ways: by the invocation whose increment of dbpd_performed returns 1, or by that destructor (C19_only_leave_at_first_"
+    "completion has both disjuncts); the second way is a way out for NOTIFICATIONS only: for dispatch_block_wait it is "
+    "unreachable (C19_wait_zero_* prove dleave = false: a waiter owns a reference, so the release that runs the destructor "
+    "cannot happen while it waits).  'still completes for waiters and notifiers' is shown as enabledness (the completion steps "
+    "are the only steps the invoking thread has), not as a bound on time",
 ]
 ASSUMPTIONS = ["client contract of block.h: a block object that is waited for / observed is not run more than once; the "
                "object stays referenced while any call is in flight and while a submission is queued (the release of the last "
@@ -337,10 +343,10 @@ def conformance(name, alltr, chunk=300):
         part = traces[c0:c0 + chunk]
         body = ["Definition traces : list ((Z * bool) * list event) := [", coq_traces(part), "].",
                 "Eval vm_compute in map (fun '((sv, pf), tr) => let '(i, d) := conform sv pf tr in [i; d]) traces."]
-        ok, vals, raw = driver.coq_eval("%s_%d" % (name, c0), IMPORTS, "\n".join(body) + "\n", timeout=900)
-        if not ok or len(vals) != 1:
-            raise RuntimeError("coq conformance evaluation failed: " + raw[-2000:])
-        xs = driver.ints(vals[0])
+        vals, raw = coq_eval_checked("%s_%d" % (name, c0), IMPORTS, "\n".join(body) + "\n", timeout=900)
+        xs = driver.ints(vals[0]) if len(vals) == 1 else []
+        if len(xs) != 2 * len(part):
+            raise RuntimeError("coq conformance evaluation: %d numbers for %d traces: %s" % (len(xs), len(part), raw[-1000:]))
         out += [(xs[2 * i], xs[2 * i + 1]) for i in range(len(part))]
     return out
 
@@ -500,9 +506,9 @@ def coq_replay(name, jobs, window=24, workers=4, chunk_events=6000, timeout=900)
             defs.append("Definition ord%d : list Z := [%s]." % (k, "; ".join(str(t) for t in order)))
             calls.append("replay %s %d qs%d [%s] ord%d" % ("true" if pf else "false", window, k, "; ".join(str(t) for t in ents), k))
         body = defs + ["Eval vm_compute in [%s]." % "; ".join(calls)]
-        ok, vals, raw = driver.coq_eval("%s_%d" % (name, ci), IMPORTS + ["BlockR"], "\n".join(body) + "\n", timeout=timeout)
-        if not ok or len(vals) != 1:
-            raise RuntimeError("coq replay evaluation failed: " + raw[-2000:])
+        vals, raw = coq_eval_checked("%s_%d" % (name, ci), IMPORTS + ["BlockR"], "\n".join(body) + "\n", timeout=timeout)
+        if len(vals) != 1:
+            raise RuntimeError("coq replay evaluation printed %d values: %s" % (len(vals), raw[-1000:]))
         got = [driver.ints(r) for r in re.findall(r"\[([^\[\]]*)\]", vals[0])]
         if len(got) != len(part):
             raise RuntimeError("coq replay: %d results for %d rounds" % (len(got), len(part)))
@@ -574,17 +580,22 @@ CRASH_SCENARIOS = {1: "a second dispatch_block_wait while the first one waits", 
                    6: "dispatch_block_wait on an object both run directly and submitted to a queue"}
 
 
-def crash_scenarios():
+def crash_scenarios(only=None):
     """misuse the library answers with DISPATCH_CLIENT_CRASH, one process per scenario: the model must predict the crash
     (PCrash reachable at the end of the crashing thread's recorded trace).  returns (mismatches, transitions seen, stats)"""
     exe = build()
     mism, seen, stats = [], set(), {}
     for n, what in sorted(CRASH_SCENARIOS.items()):
+        if only is not None and n != only:
+            continue
         r = common.run([exe, "crash", str(n)], timeout=120)
+        if r.returncode == 124:      # wall clock: once more, alone, 10x
+            RERUNS["harness_reruns_in_isolation"] += 1
+            r = common.run([exe, "crash", str(n)], timeout=1200)
         stats["crash_scenario_%d_rc" % n] = r.returncode
         if r.returncode != 4:
             mism.append({"what": "the model ends in DISPATCH_CLIENT_CRASH for '%s' but the library did not crash (rc=%s)"
-                         % (what, r.returncode), "detail": {"scenario": n}})
+                         % (what, r.returncode), "kind": "crash-scenario", "detail": {"scenario": n}})
             continue
         other, per = conc.parse_dump(r.stdout)
         for thr, evs in per.items():
@@ -593,14 +604,14 @@ def crash_scenarios():
             body = ["Definition tr : list event := [%s]." % "; ".join(e.coq() for e in tr),
                     "Eval vm_compute in let '(i, d) := conform_crash %d false tr in [i; d]." % tr[0].tid,
                     "Eval vm_compute in nodup Z.eq_dec (conform_cov_crash %d false tr)." % tr[0].tid]
-            ok, vals, raw = driver.coq_eval("c19_crash_%d_%d" % (n, thr), IMPORTS, "\n".join(body) + "\n", timeout=300)
-            if not ok or len(vals) != 2:
-                raise RuntimeError("coq crash-scenario evaluation failed: " + raw[-1500:])
+            vals, raw = coq_eval_checked("crash_%d_%d" % (n, thr), IMPORTS, "\n".join(body) + "\n", timeout=300)
+            if len(vals) != 2:
+                raise RuntimeError("coq crash-scenario evaluation printed %d values: %s" % (len(vals), raw[-1000:]))
             i, d = driver.ints(vals[0])[:2]
             if i != -1 or (crashing and d != 1):
                 mism.append({"what": "crash scenario '%s': the recorded trace of thread %d is %s by the model" %
                              (what, thr, "rejected" if i != -1 else "not able to end in DISPATCH_CLIENT_CRASH"),
-                             "detail": {"scenario": n, "rejected_at": i, "trace": [e.brief() for e in tr][-20:]}})
+                             "kind": "crash-scenario", "detail": {"scenario": n, "rejected_at": i, "trace": [e.brief() for e in tr][-20:]}})
             elif crashing:
                 for c in driver.ints(vals[1]):
                     seen.add((c // 100, c % 100))
@@ -621,9 +632,9 @@ def coverage(name, alltr):
         part = traces[c0:c0 + 300]
         body = ["Definition traces : list ((Z * bool) * list event) := [", coq_traces(part), "].",
                 "Eval vm_compute in nodup Z.eq_dec (flat_map (fun '((sv, pf), tr) => conform_cov sv pf tr) traces)."]
-        ok, vals, raw = driver.coq_eval("%s_%d" % (name, c0), IMPORTS, "\n".join(body) + "\n", timeout=900)
-        if not ok or len(vals) != 1:
-            raise RuntimeError("coq coverage evaluation failed: " + raw[-2000:])
+        vals, raw = coq_eval_checked("%s_%d" % (name, c0), IMPORTS, "\n".join(body) + "\n", timeout=900)
+        if len(vals) != 1:
+            raise RuntimeError("coq coverage evaluation printed %d values: %s" % (len(vals), raw[-1000:]))
         for c in driver.ints(vals[0]):
             seen.add((c // 100, c % 100))
     return seen
@@ -634,90 +645,94 @@ def shape(t):
                  for e in t)
 
 
-def correspond(ctx):
-    nseeds, rounds = (6, 150) if ctx.tier == "quick" else (24, 400)
-    fails, mism, alltr, total = [], [], [], {}
-    notes, cut, rinfo = [], [], {}
-    # corpus of found defects first: the queue over-release race (fixed in /repo)
-    rc, out, err = run_race(150000 if ctx.tier == "quick" else 1500000)
-    total["qref_race_rc"] = rc
-    if rc != 0:
-        fails.append({"key": "qref-race", "what": "dispatch_block_wait racing dispatch_async of the same block object crashed or "
-                      "hung (rc=%s; 132 = 'Over-release of an object': the target queue published in dbpd_queue before it is "
-                      "retained; 124 = a wait that never returns)" % rc,
-                      "label": "race", "detail": (out + err)[-300:]})
-    for i in range(nseeds):
-        seed = ctx.seed * 1000 + i
-        permille = [0, 150, 400][i % 3]
-        rc, text, err = run_harness(seed, rounds, permille)
-        label = "seed%d" % seed
+def ev_raw(e):
+    return [e.thr, e.tid, e.seq, e.kind, e.order, e.obj, e.off, e.size, e.a, e.b, e.ok, e.line]
+
+
+def ev_from(raw):
+    return conc.Ev(raw)
+
+
+def code_of(f):
+    return f.get("key", "").split(":")[-1]
+
+
+def negative_tests():
+    """standing negative tests of the replay (Proofs/BlockR_proofs.v neg*_qs): inconsistent rounds must be refused.
+    returns the numbers of recorded events left over (all must be > 0)"""
+    vals, raw = coq_eval_checked("negative", IMPORTS + ["BlockR", "Block_proofs", "BlockR_proofs"],
+                                 "Eval vm_compute in [nth 1 (replay false 8 neg1_qs [] [8; 8]) 0; "
+                                 "nth 1 (replay false 8 neg2_qs [11] [7; 7; 7; 11; 11; 11]) 0; "
+                                 "nth 1 (replay false 8 neg3_qs [] [6; 6; 6; 5; 5; 5; 5; 5; 5]) 0; "
+                                 "nth 1 (replay false 8 neg4_qs [11] [11; 11; 11; 11; 11]) 0].\n")
+    return driver.ints(vals[0]) if vals else []
+
+
+def one_run(seed, rounds, permille, label):
+    """one stress run, judged.  returns (failures, traces, stats, round info, cut traces, mismatches).
+    Verdicts that rest on a bounded wait (LOAD_SENSITIVE) are confirmed by ONE isolated re-run with every bound x10."""
+    mism = []
+    rc, text, err = run_harness(seed, rounds, permille)
+
+    def judge(rc, text, err):
         if rc != 0:
-            # the client hung (watchdog, rc 3 / 124) or died (crash handler, rc 4): a failure by itself; what was recorded
-            # until then still goes through trace conformance (rejections only: the traces are cut short)
             note = [l for l in text.splitlines() if l.startswith("HANG") or l.startswith("CRASH")]
             kind = "hang" if rc in (3, 124) else "crash"
-            fails.append({"key": "%s:%s" % (label, kind),
-                          "what": ("stress client hung: a waiter, a dispatch_sync or an invocation of a block object never completed"
-                                   if kind == "hang" else "stress client died while using block objects through the public API")
-                                  + " (%s; rc=%s, seed %d, %d rounds, perturbation %d/1000) %s"
-                                  % (note[0] if note else "no report", rc, seed, rounds, permille, err[-200:]),
-                          "label": label, "rounds": rounds, "permille": permille})
+            f = [{"key": "%s:%s" % (label, kind),
+                  "what": ("stress client hung: a waiter, a dispatch_sync or an invocation of a block object never completed"
+                           if kind == "hang" else "stress client died while using block objects through the public API")
+                          + " (%s; rc=%s, seed %d, %d rounds, perturbation %d/1000) %s"
+                          % (note[0] if note else "no report", rc, seed, rounds, permille, err[-200:]), "label": label}]
+            tr = []
             try:
                 _, tr, _, _ = analyse(text, label)
-                cut += [(sv, t, rd, thr, seed, permille) for (sv, t, rd, thr) in tr]
-            except Exception:
-                pass
-            continue
+            except Exception as ex:     # noqa
+                mism.append({"what": "the dump of a run that hung / died could not be analysed", "kind": "analysis",
+                             "detail": {"seed": seed, "rounds": rounds, "permille": permille, "error": repr(ex)[:300]}})
+            return f, [], {}, {}, tr
         f, tr, st, rds = analyse(text, label)
-        for x in f:
-            x["rounds"], x["permille"] = rounds, permille
-        fails += f
-        for k, rd in rds.items():
-            if "kind" in rd:
-                rinfo[(seed, k)] = rd
-        alltr += [(sv, t, rd, thr, seed, permille) for (sv, t, rd, thr) in tr]
-        for k, v in st.items():
-            total[k] = total.get(k, 0) + v
-    perm_of = {(x[4]): x[5] for x in alltr + cut}
-    alltr = [x[:5] for x in alltr]
-    cut = [x[:5] for x in cut]
-    res = conformance("c19_conf", alltr) if alltr else []
-    if cut:
-        for (i, idle), (sv, t, rd, thr, seed) in zip(conformance("c19_conf_cut", cut), cut):
-            if i != -1:
-                mism.append({"what": "a recorded thread trace of the library (run cut short by a hang / crash) is not accepted by the "
-                             "model's thread automaton (Block.tstep with latent steps)",
-                             "detail": {"seed": seed, "rounds": rounds, "permille": perm_of.get(seed), "round": rd, "thread": thr,
-                                        "self": sv, "rejected_at": i, "trace": [e.brief() for e in t][:60]}})
-    for (i, idle), (sv, t, rd, thr, seed) in zip(res, alltr):
-        if i != -1 or idle != 1:
-            mism.append({"what": "a recorded thread trace of the library is not accepted by the model's thread automaton "
-                         "(Block.tstep with latent steps): the implementation took a step the model does not have",
-                         "detail": {"seed": seed, "rounds": rounds, "permille": perm_of.get(seed), "round": rd, "thread": thr,
-                                    "self": sv, "rejected_at": i,
-                                    "ended_idle": idle, "trace": [e.brief() for e in t][:60]}})
-    # every complete round as a run of the GLOBAL model (BlockR.sched on Block.gstep)
+        return f, tr, st, rds, []
+    f, tr, st, rds, cut = judge(rc, text, err)
+    if rc == 0 and any(code_of(x) in LOAD_SENSITIVE for x in f):
+        RERUNS["harness_reruns_in_isolation"] += 1
+        rc2, text2, err2 = run_harness(seed, rounds, permille, slow=10)
+        f2, tr2, st2, rds2, cut2 = judge(rc2, text2, err2)
+        if any(code_of(x) in LOAD_SENSITIVE for x in f2):
+            f, tr, st, rds, cut = f2, tr2, st2, rds2, cut2        # confirmed: report what the isolated run shows
+        else:
+            f = [x for x in f if code_of(x) not in LOAD_SENSITIVE]      # load: the isolated run completed everything
+    for x in f:
+        x["seed"], x["rounds"], x["permille"] = seed, rounds, permille
+    # floor: the run must have recorded what was asked for
+    if not cut and not any(code_of(x) in ("crash", "hang") for x in f):
+        nr = sum(1 for rd in rds.values() if "kind" in rd)
+        if nr != rounds or not tr:
+            mism.append({"what": "the stress client's output is empty or truncated: %d of %d rounds reported, %d thread traces "
+                                 "recorded (hook compiled out? output lost?)" % (nr, rounds, len(tr)), "kind": "floor",
+                         "detail": {"seed": seed, "rounds": rounds, "permille": permille}})
+    return f, tr, st, rds, cut, mism
+
+
+def trace_mismatch(what, sv, t, rd, thr, seed, rounds, permille, i, idle):
+    return {"what": what, "kind": "trace",
+            "detail": {"seed": seed, "rounds": rounds, "permille": permille, "round": rd, "thread": thr, "self": sv,
+                       "rejected_at": i, "ended_idle": idle, "trace": [e.brief() for e in t][:60],
+                       "events": [ev_raw(e) for e in t][:400]}}
+
+
+def replay_rounds(items, rounds, perm_of):
+    """items: [((seed, k), rd, {thr: [Ev]})].  Every round as a run of the GLOBAL model.  returns (mismatches, counters)"""
     rp = {"rounds_replayed_on_global_model": 0, "recorded_events_replayed_on_global_model": 0, "latent_steps_inserted_by_replay": 0,
-          "rounds_not_replayed_trace_rejected": 0, "replay_end_states_with_inv_b_true": 0}
-    accepted, byround = {}, {}
-    for (i, idle), (sv, t, rd, thr, seed) in zip(res, alltr):
-        accepted[(seed, rd)] = accepted.get((seed, rd), True) and i == -1 and idle == 1
-        byround.setdefault((seed, rd), {})[thr] = t
-    jobs, jmeta = [], []
-    for key, rd in sorted(rinfo.items()):
-        ths = byround.get(key, {})
-        if not accepted.get(key, True):
-            rp["rounds_not_replayed_trace_rejected"] += 1
-            continue
-        b = build_round(rd, ths)
-        if b[0] is None:
-            mism.append({"what": "a recorded round cannot be put in a global order: " + b[1],
-                         "detail": {"seed": key[0], "round": key[1], "permille": perm_of.get(key[0]), "rounds": rounds}})
-            continue
-        pf, queues, order, ents = b
+          "replay_end_states_with_inv_b_true": 0}
+    mism, jobs, jmeta = [], [], []
+    for key, rd, ths in items:
+        pf, queues, order, ents = build_round(rd, ths)
         jobs.append((pf, pf and rd["cancels"] > 0, queues, order, ents))
         jmeta.append((key, rd, ths))
-    for r, (key, rd, ths) in zip(coq_replay("c19_replay", jobs) if jobs else [], jmeta):
+    res = coq_replay("replay", jobs) if jobs else []
+    if len(res) != len(jobs):
+        raise RuntimeError("coq replay: %d results for %d rounds" % (len(res), len(jobs)))
+    for r, (key, rd, ths) in zip(res, jmeta):
         d = judge_replay(rd, ths, r)
         if d is None:
             rp["rounds_replayed_on_global_model"] += 1
@@ -726,46 +741,145 @@ def correspond(ctx):
             rp["replay_end_states_with_inv_b_true"] += r[5]
         else:
             d.update({"seed": key[0], "round": key[1], "rounds": rounds, "permille": perm_of.get(key[0]), "kind": rd["kind"],
-                      "subm": rd["subm"]})
+                      "subm": rd["subm"], "round_line": rd,
+                      "events": {str(thr): [ev_raw(e) for e in t] for thr, t in ths.items()}
+                      if sum(len(t) for t in ths.values()) <= 600 else None})
             mism.append({"what": "a recorded round is not reproduced as a run of the global model Block.gstep (BlockR.sched: every "
                                  "thread's recorded events in an order compatible with the recording, each a step of the model "
                                  "with the recorded observation, latent steps inserted with the model's values; final model state "
-                                 "= recorded final state, inv_b true)", "detail": d})
-    total.update(rp)
-    # standing negative tests of the replay (Proofs/BlockR_proofs.v neg*_qs): inconsistent rounds must be refused
-    ok, vals, raw = driver.coq_eval("c19_negative", IMPORTS + ["BlockR", "Block_proofs", "BlockR_proofs"],
-                                    "Eval vm_compute in [nth 1 (replay false 8 neg1_qs [] [8; 8]) 0; "
-                                    "nth 1 (replay false 8 neg2_qs [11] [7; 7; 7; 11; 11; 11]) 0; "
-                                    "nth 1 (replay false 8 neg3_qs [] [6; 6; 6; 5; 5; 5; 5; 5; 5]) 0; "
-                                    "nth 1 (replay false 8 neg4_qs [11] [11; 11; 11; 11; 11]) 0].\n")
-    left = driver.ints(vals[0]) if ok and vals else []
-    total["negative_replay_tests_refused"] = "%d/4" % sum(1 for x in left if x > 0)
-    if len(left) != 4 or any(x == 0 for x in left):
-        mism.append({"what": "the global replay reproduced a round that no run of the model explains (standing negative tests: "
-                             "testcancel non-zero without cancel, worker skipping the body without cancel, body after a returned "
-                             "cancel, invocation without submission)", "detail": {"left_over": left, "coq": raw[-500:]}})
+                                 "= recorded final state, inv_b true)", "kind": "round", "detail": d})
+    return mism, rp
+
+
+def correspond(ctx):
+    nseeds, rounds = (6, 150) if ctx.tier == "quick" else (24, 400)
+    fails, mism, alltr, total = [], [], [], {}
+    notes, cut, rinfo, perm_of = [], [], {}, {}
+    for k in RERUNS:
+        RERUNS[k] = 0
+
+    def part(name, fn):
+        """a part that cannot be evaluated is a broken tie (mismatch), never a silent pass; what was collected so far is kept"""
+        try:
+            return fn()
+        except Exception:     # noqa
+            import traceback
+            mism.append({"what": "part '%s' of the correspondence could not be evaluated" % name, "kind": "part",
+                         "detail": traceback.format_exc()[-1500:]})
+            return None
+    # corpus of found defects first: the queue over-release race (fixed in /repo)
+    iters = 150000 if ctx.tier == "quick" else 1500000
+
+    def race():
+        rc, out, err = run_race(iters)
+        total["qref_race_rc"] = rc
+        if rc != 0:
+            fails.append({"key": "qref-race", "what": "dispatch_block_wait racing dispatch_async of the same block object crashed or "
+                          "hung (rc=%s; 132 = 'Over-release of an object': the target queue published in dbpd_queue before it is "
+                          "retained; 3 / 124 = no hand-off completed, confirmed by an isolated re-run with a 10x limit)" % rc,
+                          "label": "race", "iterations": iters, "detail": (out + err)[-300:]})
+    part("wait/async race regression", race)
+    for i in range(nseeds):
+        seed = ctx.seed * 1000 + i
+        permille = [0, 150, 400][i % 3]
+        perm_of[seed] = permille
+        got = part("stress run seed %d" % seed, lambda: one_run(seed, rounds, permille, "seed%d" % seed))
+        if got is None:
+            continue
+        f, tr, st, rds, ctr, m = got
+        fails += f
+        mism += m
+        cut += [(sv, t, rd, thr, seed) for (sv, t, rd, thr) in ctr]
+        for k, rd in rds.items():
+            if "kind" in rd:
+                rinfo[(seed, k)] = rd
+        alltr += [(sv, t, rd, thr, seed) for (sv, t, rd, thr) in tr]
+        for k, v in st.items():
+            total[k] = total.get(k, 0) + v
+    # floor over the whole check: nothing measured = nothing shown
+    if not alltr and not cut:
+        mism.append({"what": "no thread trace of the library was recorded at all (%d runs requested)" % nseeds, "kind": "floor",
+                     "detail": {"runs": nseeds, "rounds": rounds}})
+    total["runs_requested"], total["rounds_requested"] = nseeds, nseeds * rounds
+    total["rounds_recorded"] = len(rinfo)
+    res = part("per-thread trace conformance", lambda: conformance("conf", alltr)) if alltr else []
+    if res is None or len(res) != len(alltr):
+        if res is not None:
+            mism.append({"what": "trace conformance returned %d verdicts for %d traces" % (len(res), len(alltr)), "kind": "part",
+                         "detail": {}})
+        res = []
+    cres = part("trace conformance of cut runs", lambda: conformance("conf_cut", cut)) if cut else []
+    for (i, idle), (sv, t, rd, thr, seed) in zip(cres or [], cut):
+        if i != -1:
+            mism.append(trace_mismatch("a recorded thread trace of the library (run cut short by a hang / crash) is not accepted by the "
+                                       "model's thread automaton (Block.tstep with latent steps)", sv, t, rd, thr, seed, rounds,
+                                       perm_of.get(seed), i, -1))
+    accepted, byround = {}, {}
+    for (i, idle), (sv, t, rd, thr, seed) in zip(res, alltr):
+        accepted[(seed, rd)] = accepted.get((seed, rd), True) and i == -1 and idle == 1
+        byround.setdefault((seed, rd), {})[thr] = t
+        if i != -1 or idle != 1:
+            mism.append(trace_mismatch("a recorded thread trace of the library is not accepted by the model's thread automaton "
+                                       "(Block.tstep with latent steps): the implementation took a step the model does not have",
+                                       sv, t, rd, thr, seed, rounds, perm_of.get(seed), i, idle))
+    total["thread_traces_judged_by_conformance"] = len(res)
+    # every complete round as a run of the GLOBAL model (BlockR.sched on Block.gstep)
+    items, skipped = [], 0
+    for key, rd in sorted(rinfo.items()):
+        if res and accepted.get(key, True):
+            items.append((key, rd, byround.get(key, {})))
+        else:
+            skipped += 1
+    total["rounds_not_replayed_trace_rejected"] = skipped
+    got = part("whole-round replay on the global model", lambda: replay_rounds(items, rounds, perm_of)) if items else None
+    if got is not None:
+        mism += got[0]
+        total.update(got[1])
+        if got[1]["rounds_replayed_on_global_model"] + len(got[0]) != len(items):
+            mism.append({"what": "whole-round replay judged %d of %d rounds" % (got[1]["rounds_replayed_on_global_model"] + len(got[0]),
+                                                                                   len(items)), "kind": "part", "detail": {}})
+    elif rinfo and not mism:
+        mism.append({"what": "no round was replayed on the global model", "kind": "floor", "detail": {"rounds": len(rinfo)}})
+
+    def negative():
+        left = negative_tests()
+        total["negative_replay_tests_refused"] = "%d/4" % sum(1 for x in left if x > 0)
+        if len(left) != 4 or any(x == 0 for x in left):
+            mism.append({"what": "the global replay reproduced a round that no run of the model explains (standing negative tests: "
+                                 "testcancel non-zero without cancel, worker skipping the body without cancel, body after a returned "
+                                 "cancel, invocation without submission)", "kind": "negative", "detail": {"left_over": left}})
+    part("standing negative tests of the replay", negative)
     # misuse scenarios: the model's crash branches against the library's DISPATCH_CLIENT_CRASH
-    cmism, cseen, cstats = crash_scenarios()
-    mism += cmism
-    total.update(cstats)
+    cseen = set()
+
+    def crash():
+        cmism, seen, cstats = crash_scenarios()
+        mism.extend(cmism)
+        cseen.update(seen)
+        total.update(cstats)
+    part("misuse (crash) scenarios", crash)
     # coverage: transitions of the thread automaton taken by accepted traces (computed by the model), and the
     # API-level branches seen by the Python mirror
     if alltr and not mism:
-        seen = coverage("c19_cov", alltr) | cseen
-        reach_tr = MODEL_TRANSITIONS - UNREACHABLE_TRANSITIONS
-        total["model_transitions_covered"] = "%d/%d" % (len(seen & reach_tr), len(reach_tr))
-        total["model_transitions_uncovered"] = ["%s->%s" % (TAGS[a], TAGS[b]) for (a, b) in sorted(reach_tr - seen)]
-        total["model_transitions_unreachable_through_the_api"] = [
-            "%s->%s (%s)" % (TAGS[a], TAGS[b], "async invocation of a cancelled DBF_PERFORM record" if (a, b) == (0, 12) else
-                             "destructor finding a queue still in dbpd_queue") for (a, b) in sorted(UNREACHABLE_TRANSITIONS)]
-        total["model_transitions_unexpected"] = ["%s->%s" % (TAGS.get(a, a), TAGS.get(b, b))
-                                                 for (a, b) in sorted(seen - MODEL_TRANSITIONS - CRASH_TRANSITIONS)]
-        total["crash_transitions_covered"] = "%d/%d" % (len(seen & CRASH_TRANSITIONS), len(CRASH_TRANSITIONS))
-        total["crash_transitions_uncovered"] = ["%s->%s%s" % (TAGS[a], TAGS[b], " (needs 2^32 invocations)" if (a, b) in ((11, 1), (28, 1)) else "")
-                                                for (a, b) in sorted(CRASH_TRANSITIONS - seen)]
+        def cover():
+            seen = coverage("cov", alltr) | cseen
+            reach_tr = MODEL_TRANSITIONS - UNREACHABLE_TRANSITIONS
+            total["model_transitions_covered"] = "%d/%d" % (len(seen & reach_tr), len(reach_tr))
+            total["model_transitions_uncovered"] = ["%s->%s" % (TAGS[a], TAGS[b]) for (a, b) in sorted(reach_tr - seen)]
+            total["model_transitions_unreachable_through_the_api"] = [
+                "%s->%s (%s)" % (TAGS[a], TAGS[b], "async invocation of a cancelled DBF_PERFORM record" if (a, b) == (0, 12) else
+                                 "destructor finding a queue still in dbpd_queue") for (a, b) in sorted(UNREACHABLE_TRANSITIONS)]
+            total["model_transitions_unexpected"] = ["%s->%s" % (TAGS.get(a, a), TAGS.get(b, b))
+                                                     for (a, b) in sorted(seen - MODEL_TRANSITIONS - CRASH_TRANSITIONS)]
+            total["crash_transitions_covered"] = "%d/%d" % (len(seen & CRASH_TRANSITIONS), len(CRASH_TRANSITIONS))
+            total["crash_transitions_uncovered"] = ["%s->%s%s" % (TAGS[a], TAGS[b], " (needs 2^32 invocations)"
+                                                                  if (a, b) in ((11, 1), (28, 1)) else "")
+                                                    for (a, b) in sorted(CRASH_TRANSITIONS - seen)]
+        part("transition coverage", cover)
     cov = branch_coverage(alltr)
     total["api_branches_covered"] = "%d/%d" % (len(cov["covered"]), len(cov["all"]))
     total["api_branches_uncovered"] = sorted(cov["all"] - cov["covered"])
+    total.update(RERUNS)
     distinct = len(set(shape(t) for (_, t, _, _, _) in alltr))
     samples = [{"self": sv, "round": rd, "trace": [e.brief() for e in t]} for (sv, t, rd, _, _) in alltr[:3]]
     longest = sorted(alltr, key=lambda x: -len(x[1]))[:2]
@@ -788,7 +902,8 @@ def correspond(ctx):
                     "model words, counters and notification counts = recorded; boolean invariant inv_b true); API oracle on "
                     "stamps: wait 0 only after the first dbpd_performed increment whose thread had left the body, non-zero only "
                     "at/after the deadline (library clock) and never for FOREVER, each notification exactly once and not before "
-                    "the first completion, testcancel non-zero once a cancel has returned, no body after a cancel that returned "
+                    "the first completion (or, for an object released without ever having run, the release of its last reference: "
+                    "dispose rounds), testcancel non-zero once a cancel has returned, no body after a cancel that returned "
                     "before the start, completion for waiters / notifiers of cancelled blocks, body and dbpd_performed counts; "
                     "distinct = distinct shapes (event kinds, fields, flag bits seen, outcomes) of thread traces",
             "samples": samples, "distribution": total, "traces_validated_against_impl": len(alltr),
@@ -891,25 +1006,110 @@ def branch_coverage(alltr):
     return {"covered": cov & ALL_BRANCHES, "all": set(ALL_BRANCHES)}
 
 
+def judge_run(seed, rounds, permille):
+    """one recorded run re-executed against the current build and judged by every layer: oracle, per-thread conformance,
+    whole-round replay.  returns (failures, mismatches)"""
+    f, tr, st, rds, ctr, mism = one_run(seed, rounds, permille, "seed%d" % seed)
+    alltr = [(sv, t, rd, thr, seed) for (sv, t, rd, thr) in tr]
+    res = conformance("rr_conf", alltr) if alltr else []
+    accepted, byround = {}, {}
+    for (i, idle), (sv, t, rd, thr, _) in zip(res, alltr):
+        accepted[rd] = accepted.get(rd, True) and i == -1 and idle == 1
+        byround.setdefault(rd, {})[thr] = t
+        if i != -1 or idle != 1:
+            mism.append(trace_mismatch("a recorded thread trace of the library is not accepted by the model's thread automaton",
+                                       sv, t, rd, thr, seed, rounds, permille, i, idle))
+    cutl = [(sv, t, rd, thr, seed) for (sv, t, rd, thr) in ctr]
+    for (i, idle), (sv, t, rd, thr, _) in zip(conformance("rr_conf_cut", cutl) if cutl else [], cutl):
+        if i != -1:
+            mism.append(trace_mismatch("a recorded thread trace (run cut short) is not accepted by the model's thread automaton",
+                                       sv, t, rd, thr, seed, rounds, permille, i, -1))
+    items = [((seed, k), rd, byround.get(k, {})) for k, rd in sorted(rds.items()) if "kind" in rd and accepted.get(k, True)]
+    if items:
+        m, _ = replay_rounds(items, rounds, {seed: permille})
+        mism += m
+    return f, mism
+
+
 def replay(ctx, obj):
+    """re-execute every recorded failure / broken tie against the current build and re-judge it.
+    rc 1: something reproduces; rc 0: everything that could be re-executed no longer fails; rc 2: nothing could be executed"""
+    executed, reproduced = 0, 0
+    runs = {}      # (seed, rounds, permille) -> [(failures, mismatches)] of the re-executions made so far (at most three)
+
+    def rerun_until(seed, rounds, permille, pred):
+        """the recorded run against the current build, up to three times (the schedule is not deterministic); the first
+        failure / mismatch satisfying pred, or None"""
+        done = runs.setdefault((seed, rounds, permille), [])
+        n = 0
+        while True:
+            for (f2, m2) in done[n:]:
+                n += 1
+                hit = [x for x in f2 + m2 if pred(x)]
+                if hit:
+                    return hit[0]
+            if len(done) >= 3:
+                return None
+            done.append(judge_run(seed, rounds, permille))
+
+    def verdict(rep, text):
+        nonlocal executed, reproduced
+        executed += 1
+        reproduced += 1 if rep else 0
+        print(("REPRODUCES: " if rep else "does not reproduce: ") + text)
     for f in obj.get("failures", []):
         print("recorded failure:", f.get("what"))
-        lab = f.get("label", "seed1")
-        if lab == "race":
-            rc, out, err = run_race(1500000)
-            print("re-run of the wait/async race: rc=%s %s" % (rc, (out + err)[-200:]))
+        code = code_of(f)
+        if f.get("label") == "race" or code == "qref-race":
+            rc, out, err = run_race(int(f.get("iterations", 150000)))
+            verdict(rc != 0, "wait/async race regression, rc=%s %s" % (rc, (out + err)[-200:].strip()))
             continue
-        seed = int(lab.replace("seed", "")) if lab.startswith("seed") else 1
-        rounds = f.get("rounds", 150 if ctx.tier == "quick" else 400)
-        permille = f.get("permille", [0, 150, 400][seed % 3])
-        rc, text, err = run_harness(seed, rounds, permille)
-        if rc != 0:
-            print("re-run with seed %d: stress client died rc=%s %s" % (seed, rc, err[-200:]))
+        if "seed" not in f or "rounds" not in f or "permille" not in f:
+            print("  (no recorded run parameters: cannot be re-executed)")
             continue
-        f2, _, _, _ = analyse(text, lab)
-        print("re-run with seed %d: %d failures" % (seed, len(f2)))
-        for x in f2[:5]:
-            print("  ", x["what"])
+        # the schedule of a stress run is not deterministic: the recorded run is repeated up to three times with the SAME
+        # seed / round count / perturbation and re-judged by the same oracle; the same kind of failure must come back
+        hit = rerun_until(f["seed"], f["rounds"], f["permille"], lambda x: "key" in x and code_of(x) == code)
+        verdict(hit is not None, "seed %d, %d rounds, perturbation %d/1000, failure kind '%s'%s" % (
+            f["seed"], f["rounds"], f["permille"], code, (": " + hit["what"]) if hit else " (3 runs)"))
     for b in obj.get("broken", []):
-        print("no longer checks:", b)
-    return 1
+        what, d = b.get("what"), b.get("detail")
+        if what != "correspondence" or not isinstance(d, dict):
+            print("no longer checks (%s): %s" % (what, str(d)[:600]))
+            print("  a proof / translation / build tie is re-established only by a full ./check C19")
+            continue
+        kind, dd = d.get("kind"), d.get("detail") if isinstance(d.get("detail"), dict) else {}
+        print("recorded mismatch:", d.get("what"))
+        if kind in ("trace", "round", "floor") and "seed" in dd and dd.get("rounds") and dd.get("permille") is not None:
+            # the recorded run (same seed / rounds / perturbation) against the current build, judged by every layer; the
+            # schedule is not deterministic: up to three runs, the same kind of mismatch must come back
+            hit = rerun_until(dd["seed"], dd["rounds"], dd["permille"], lambda x: "key" not in x and x.get("kind") == kind)
+            verdict(hit is not None, "seed %s, %s rounds, perturbation %s/1000, mismatch kind '%s'%s" % (
+                dd["seed"], dd["rounds"], dd["permille"], kind, (": " + json_brief(hit["detail"])) if hit else " (3 runs)"))
+            # for information: the recorded trace / round itself against the CURRENT model
+            if kind == "trace" and dd.get("events"):
+                t = [ev_from(r) for r in dd["events"]]
+                (i, idle), = conformance("replay_conf", [(dd.get("self", t[0].tid), t, dd.get("round"), dd.get("thread"), dd.get("seed"))])
+                print("  (the recorded trace itself, fed to the current Block.conform: rejected_at=%d ended_idle=%d)" % (i, idle))
+            elif kind == "round" and dd.get("events") and dd.get("round_line"):
+                ths = {int(thr): [ev_from(r) for r in evs] for thr, evs in dd["events"].items()}
+                m, rp = replay_rounds([((dd.get("seed"), dd.get("round")), dd["round_line"], ths)], dd.get("rounds"), {})
+                print("  (the recorded round itself, fed to the current BlockR.replay: %s)" % (
+                    json_brief(m[0]["detail"]) if m else "reproduced as a run of the global model"))
+        elif kind == "crash-scenario":
+            m, _, st = crash_scenarios(only=dd.get("scenario"))
+            verdict(bool(m), "misuse scenario %s: %s" % (dd.get("scenario"), m[0]["what"] if m else "crashes as the model predicts"))
+        elif kind == "negative":
+            left = negative_tests()
+            verdict(len(left) != 4 or any(x == 0 for x in left), "standing negative tests, events left over: %s" % left)
+        else:
+            print("  this entry carries nothing that can be re-executed (kind %s): only a full ./check C19 re-establishes it" % kind)
+    if executed == 0:
+        print("nothing could be re-executed")
+        return 2
+    return 1 if reproduced else 0
+
+
+def json_brief(d):
+    return str({k: d[k] for k in ("model_vs_recorded", "first_unmatched_thread", "first_unmatched_action", "round", "thread",
+                                  "rejected_at", "trace") if k in d})[:600]
